@@ -95,6 +95,41 @@ def mark(cases_path: str, flags: dict) -> None:
         f.write("\n".join(lines) + "\n")
 
 
+REPO_TESTS = ["tests/test_rewriting.py", "tests/test_deletions.py", "tests/test_retarget.py",
+              "tests/test_scopes.py"]
+
+
+def repo_test_traces(rep: Report, wd: str):
+    """Second source of executions: the rewrites performed by the repository's own
+    tests (the maintainers' hand-built set-ups: PE, safe SEH, entry points, CFI,
+    MIPS, data patches ...), recorded by harness/repotests/plugin.py and judged by
+    the same clauses under the same domain predicates."""
+    import subprocess
+    out = os.path.join(wd, "repo.traces.ndjson")
+    raw = out + ".raw"
+    env = dict(os.environ)
+    env["GTIRB_REWRITING_VERIF"] = "1"
+    env["VERIF_REPOTRACE"] = raw
+    env["PYTHONPATH"] = tlc.VERIF + os.pathsep + env.get("PYTHONPATH", "")
+    env.setdefault("PYTHONHASHSEED", "0")
+    p = subprocess.run([core.PY, "-m", "pytest", "-q", "-p", "no:cacheprovider", "-p",
+                        "harness.repotests.plugin"] + REPO_TESTS,
+                       cwd="/repo", env=env, stdout=subprocess.PIPE, stderr=subprocess.STDOUT, text=True)
+    n = skipped = 0
+    if os.path.exists(raw):
+        with open(raw) as f, open(out, "w") as o:
+            for line in f:
+                t = json.loads(line)
+                if t.get("skip"):
+                    skipped += 1
+                    continue
+                o.write(line)
+                n += 1
+    rep.extra["repo_test_traces"] = {"recorded": n, "not_judged_unsupported_feature": skipped,
+                                     "pytest": p.stdout.strip().splitlines()[-1] if p.stdout.strip() else ""}
+    return out if n else None
+
+
 LEVELB = {"C02", "C03", "C06", "C09"}
 LEVELB_CASES = {"quick": 300, "thorough": 3000}
 
@@ -170,6 +205,10 @@ def run(prop: str, tier: str, replay: str = None) -> int:
                 mark(cases, {"observe": True, "sequential": True})
         shards = core.split_file(cases, 16, wd, "cases")
         traces = core.run_module_parallel("harness.g1.runner", shards, wd, "g1")
+        if not replay:
+            rt = repo_test_traces(rep, wd)
+            if rt:
+                traces.append(rt)
         verdicts = tlc.validate_sharded("TraceG1.tla", "TraceG1.cfg", traces, jobs=16)
         case_by_id = {}
         with open(cases) as f:
